@@ -140,6 +140,24 @@ func c12One(res *explore.Result, wl *c12Workload, p parsley.Parser, s string, ve
 			res.Notes = append(res.Notes, fmt.Sprintf("alone: %v", got))
 		}
 	}
+	// ONE file and ONE reader used twice: parsed with the file alone, then the file is registered again behind a 2-byte
+	// file in a fresh set (its base offset changes) and parsed once more through the same reader: what a reader or a
+	// file remembers from the first use must not leak into the second
+	{
+		f := text.NewFile("f", scratchCopy(raw))
+		scribble()
+		rd := text.NewReader(f)
+		got, pm := c12Observe(p, parsley.NewFileSet(f), f, rd, 1, wl.direct, n)
+		if !compare("alone, first use of a file and reader that are used again", got, pm) {
+			return
+		}
+		fs2 := parsley.NewFileSet(text.NewFile("pre0", []byte("xy")))
+		fs2.AddFile(f)
+		got, pm = c12Observe(p, fs2, f, rd, 4, wl.direct, n)
+		if !compare("same file and same reader after the file was registered again behind a 2-byte file", got, pm) {
+			return
+		}
+	}
 	// two files with the same content in one set: parse the first then the second, and the other way round
 	for _, order := range [][2]int{{0, 1}, {1, 0}} {
 		f0, f1 := text.NewFile("f", raw), text.NewFile("f", raw)
